@@ -58,18 +58,19 @@ def run(chk):
         chk.run("C03.R1", site + "->dynamic_loss_apply", cfg, go, construct="dyn_loss formula")
 
     # an equation returning a scalar (float) residual per point - the documented return kind of `equation`
-    for eq_type in ('ODE', 'statio_PDE', 'nonstatio_PDE'):
-        for pk in ((), ('nu',)):
-            cfg = {"loss": eq_type, "net": "PINN", "residual": "scalar (0-d)", "weight": "scalar", "param_batch": list(pk)}
+    for eq_type, kind in (('ODE', 'PINN'), ('statio_PDE', 'PINN'), ('nonstatio_PDE', 'PINN'), ('statio_PDE', 'SPINN'),
+                          ('nonstatio_PDE', 'SPINN')):
+        for pk in (((), ('nu',)) if kind == 'PINN' else ((),)):
+            cfg = {"loss": eq_type, "net": kind, "residual": "scalar (0-d)", "weight": "scalar", "param_batch": list(pk)}
             site = {"ODE": "jinns.loss._LossODE:LossODE.evaluate", "statio_PDE": "jinns.loss._LossPDE:LossPDEStatio.evaluate",
                     "nonstatio_PDE": "jinns.loss._LossPDE:LossPDENonStatio.evaluate"}[eq_type]
 
-            def go(eq_type=eq_type, pk=pk):
+            def go(eq_type=eq_type, pk=pk, kind=kind):
                 dyn = E.user_dynamic_loss(eq_type, 1, scalar=True)
-                S = SingleLoss(E, eq_type, 'PINN', d=2, m_u=1, m_res=1, terms=('dyn',), dyn=dyn)
+                S = SingleLoss(E, eq_type, kind, d=2, m_u=1, m_res=1, terms=('dyn',), dyn=dyn)
                 total, terms = S.evaluate(param_keys=pk)
                 found = canon(scalar_of(terms['dyn_loss'], 'dyn_loss'))
-                ref = SingleLoss(E, eq_type, 'PINN', d=2, m_u=1, m_res=1, terms=('dyn',))
+                ref = SingleLoss(E, eq_type, kind, d=2, m_u=1, m_res=1, terms=('dyn',))
                 exp = canon(scalar_of(ref.expected_dyn(pk), 'spec'))
                 if found != exp:
                     raise Violation("dyn_loss", str(found), str(exp))
